@@ -208,7 +208,7 @@ Proof. vm_compute. repeat split; try reflexivity. discriminate. Qed.
 Definition tcp_run_w (cfgA cfgB : wcfg) (sA sB : list byte) (cA cB : list nat) (eA eB : N) (wA wB : bool)
                      (mA mB : list bool)     (* the (0, nil) reads endpoint A / B interleaves with its chunks *)
                      (sched : list nat) :=
-  run tsh (nat * tpc) (tstep CopyBufferSize)
+  run tsh (nat * tpc) (tstep CopyBufferSize false)
       (tcp_init (dirwe sA cA eA wA mA None false cfgB) (dirwe sB cB eB wB mB None false cfgA)) sched.
 
 (* the endpoint configurations the harness builds with the real constructors (harness/cmd/c12: `wrap`) *)
@@ -260,6 +260,23 @@ Proof.
   exact (Inv_half_close CopyBufferSize copy_buffer_positive sA sB cfgA cfgB _ p0 p1 pm
            (c12_tcp_inv cfgA cfgB sA sB cA cB eA eB wA wB mA mB sched)).
 Qed.
+
+(* under every schedule the relay arms no read deadline on either endpoint: the direction that is still open can stay
+   silent for as long as it likes after the other one has half-closed *)
+Lemma c12_tcp_no_deadline cfgA cfgB sA sB cA cB eA eB wA wB mA mB sched :
+  let s := tcp_run_w cfgA cfgB sA sB cA cB eA eB wA wB mA mB sched in
+  sh_dl_a (fst s) = false /\ sh_dl_b (fst s) = false.
+Proof. exact (Inv_no_deadline sA sB cfgA cfgB _ (c12_tcp_inv cfgA cfgB sA sB cA cB eA eB wA wB mA mB sched)). Qed.
+
+(* the variant that arms a "drain" read deadline on the destination it has just half-closed: A ("GET") reaches EOF first,
+   B answers only after a silence longer than the deadline — B's 3 bytes are lost and ReceiveError is a timeout (8) *)
+Lemma c12_tcp_drain_deadline_refuted :
+  let s := run tsh (nat * tpc) (tstep CopyBufferSize true)
+             (tcp_init (dirwe [71; 69; 84] [] 0 false [] None false cfg_direct) (dirwe [50; 48; 48] [] 0 false [] None false cfg_direct))
+             ([0; 0; 0; 0; 1; 1; 1; 2; 2; 2; 2]%nat) in
+  sh_ret (fst s) = true /\ d_out (sh_d0 (fst s)) = [71; 69; 84] /\ d_out (sh_d1 (fst s)) = [] /\
+  d_err (sh_d1 (fst s)) = 8 /\ sh_dl_b (fst s) = true.
+Proof. vm_compute. repeat split; reflexivity. Qed.
 
 (* the dispatch table of the seven configurations: (CloseWrite reaching the endpoint, closeWriteFunc calls,
    Close reaching the endpoint) — the numbers the harness predicate expects from the real constructors *)
